@@ -7,6 +7,7 @@ import (
 	"go.arcalot.io/log/v2"
 	"go.flow.arcalot.io/pluginsdk/schema"
 	"io"
+	"reflect"
 	"strings"
 	"sync"
 	"time"
@@ -748,6 +749,12 @@ func (c *client) processWorkDone(
 		// short behind the output ID must not pass for an output without data.
 		return NewErrorExecutionResult(fmt.Errorf(
 			"step with run ID '%s' sent a work done message without output data; the message is incomplete or corrupted", runID))
+	}
+	if reflect.ValueOf(doneMessage.OutputData).Kind() != reflect.Map {
+		// An object travels as a map. Anything else (a map head that turned into an array head) is not an output.
+		return NewErrorExecutionResult(fmt.Errorf(
+			"step with run ID '%s' sent a work done message whose output data is not an object (%T); the message is corrupted",
+			runID, doneMessage.OutputData))
 	}
 	c.logger.Debugf("Step with run ID '%s' completed with output ID '%s'.", runID, doneMessage.OutputID)
 
